@@ -2,6 +2,7 @@
 
 use crate::util::Ctx;
 
+pub mod c01;
 pub mod c02;
 pub mod c03;
 pub mod c04;
@@ -10,6 +11,8 @@ pub mod c05;
 pub mod c06;
 #[cfg(feature = "builder")]
 pub mod c07;
+pub mod c08;
+pub mod c09;
 pub mod c10;
 pub mod c11;
 #[cfg(feature = "builder")]
@@ -34,6 +37,10 @@ pub trait Driver {
 
 pub fn make(name: &str) -> Option<Box<dyn Driver>> {
     Some(match name {
+        "C01" => Box::new(c01::C01),
+        "C01vbe" => Box::new(c01::C01Vbe),
+        "C09" => Box::new(c09::C09),
+        "C08" => Box::new(c08::C08::new()),
         "C02" => Box::new(c02::C02),
         "C03" => Box::new(c03::C03::new()),
         "C14" => Box::new(c14::C14),
